@@ -268,6 +268,14 @@ func c18Exec(plan *Plan, st *Stats) *Violation {
 			}
 			applyTraced(dyn[r], i, &cp.Runners[r].Ops[i], &traces[r])
 			cur = saved
+			// what the OTHER runners handed to the host earlier is still what it was
+			for o := range dyn {
+				if o != r && dyn[o] != nil && viol == nil {
+					if msg := dyn[o].h.keptChanged(); msg != "" {
+						viol = &Violation{Clause: "C18.returned-value", OpIndex: o, Observed: msg, Note: fmt.Sprintf("an element that runner %d had returned to the host changed while runner %d executed op %d", o, r, i)}
+					}
+				}
+			}
 			return true
 		}
 		for _, r := range cp.Order {
@@ -292,7 +300,7 @@ func c18Exec(plan *Plan, st *Stats) *Violation {
 			for step(r) {
 			}
 		}
-		for r := 0; r < nr; r++ {
+		for r := 0; r < nr && viol == nil; r++ {
 			got := traces[r].String()
 			if failed[r] != "" {
 				got = failed[r]
